@@ -340,6 +340,7 @@ func judged(c Case) *ev.Verdict {
 func registerAll() {
 	ev.Register("json", judged)
 	ev.Register("keys", oracle)
+	ev.Register("deep", oracle)
 	ev.Register("json-after-prelude", judged)
 }
 
@@ -368,6 +369,39 @@ func TestPropJSONAfterPrelude(t *testing.T) {
 		return Case{Layouts: []string{gen.EncodeJSONDoc(t, v)}, Prelude: rapid.IntRange(1, sut.DisturbMax).Draw(t, "prelude")}
 	}, judged)
 	sut.Pristine()
+}
+
+// deeply nested plain JSON (up to the nesting limit of 10000 levels that the library states in its
+// diagnostic 307): accepted and preserved like any other
+func TestPropDeep(t *testing.T) {
+	registerAll()
+	ev.KeepFirst("deep")
+	idx := 0
+	var n, bad int64
+	for _, d := range []int{50, 500, 2500, 5001, 5002, 6000, 9000, 10000} {
+		for fi, f := range [][3]string{{"[", "]", "1"}, {`{"k":`, "}", `"v"`}, {`[{"a\"b":`, "}]", "null"}, {"[ 0, ", " ]", "7"}} {
+			idx++
+			if !ev.Mine(idx) || (d > 5002 && fi == 2 && d*2 > 10000) {
+				continue
+			}
+			depth := d
+			if fi == 2 {
+				depth = d / 2 // two levels per repetition
+			}
+			c := Case{Layouts: []string{strings.Repeat(f[0], depth) + f[2] + strings.Repeat(f[1], depth)}}
+			n++
+			ev.NonTrivial("deep", fmt.Sprintf("%d/%d", d, fi))
+			if v := oracle(c); v != nil && ev.Report("deep", c, v) {
+				bad++
+			}
+		}
+	}
+	ev.Count("deep", n)
+	ev.Sample("deep", Case{Layouts: []string{"[[[[[[1]]]]]]"}})
+	ev.Exhaustive("deep", "arrays, objects and mixtures nested 50 ... 10000 levels")
+	if bad > 0 {
+		t.Errorf("VIOLATION-CANDIDATE deep: %d", bad)
+	}
 }
 
 // exhaustive: every key / string of <= 2 symbols over an escape alphabet, as object key and as value
